@@ -24,13 +24,36 @@ Proved, for all preferences (the spacer strings are arbitrary texts, not a sampl
 Tie: `out` — the transcription against the real `Out` class on random sequences of appends (8 token types x 40
 values x the four flags) under random spacer strings, line separators, indents and levels, comparing the list
 of pieces and `value()`; `vser` (C03).
-Partial: the omission preferences (keep*, validOnly), the default* spellings, importHrefFormat and the assembly
-of whole sheets are decided by the oracle on the implementation: a pairwise-covering array plus random points
-of the preference space x sheets from G and the repository's samples, re-parsed and compared with the model
-transformed by exactly the documented omissions.
+
+The omission preferences (second part of this file): `Model/Omit.lean` transcribes which
+rules and which items of a declaration block are WRITTEN under keepComments, keepEmptyRules, keepUnknownAtRules,
+keepUsedNamespaceRulesOnly, keepAllProperties, validOnly (and whether lineSeparator is empty; useMinified as the
+documented combination) on an abstract sheet of any size and @media depth: `written : Prefs → Sheet → Sheet`.
+Proved for all sheets and all preference settings:
+* `written_sub`, `written_default_sub` — the sheet written is the sheet (and, keepEmptyRules being off, the sheet
+  written by default) with items deleted: nothing added, nothing reordered, at every level of the tree;
+* `omitted_is_documented` — every deletion carries a reason: a comment with keepComments off, an unknown at-rule
+  with keepUnknownAtRules off, an @namespace rule whose uri no style rule uses with keepUsedNamespaceRulesOnly, a
+  style / @media rule of which nothing is written with keepEmptyRules off, a declaration that is not the effective
+  one of its name with keepAllProperties off, an invalid one with validOnly - and two reasons NO preference names:
+  an @page (margin box) / @font-face of which nothing is written goes whatever keepEmptyRules says
+  (`empty_page_is_never_written`);  `item_omitted_iff` is the exact statement for the items of a block,
+  `written_keep_everything` (`_id`) for the sheet: with every keep-preference at "keep" only those are deleted;
+  `written_two_steps`: `written` = delete what a preference names, then delete the rules left without content;
+  `only_comments`, `only_nested_atrules`, `only_invalid`, `one_declaration_per_name`: what one preference removes;
+  `empty_means`: the code's notion of an empty block (with its separator quirk);
+* `written_idempotent` under two hypotheses, each with the counterexample that makes it necessary
+  (`not_idempotent_namespace`, `not_idempotent_separator`), `written_idempotent_keepEmpty`;
+* `used_namespaces_survive` — every uri used by a written style rule (at any @media depth) keeps its @namespace
+  rule; the converse fails (`unused_namespace_survives`).
+Tie: driver op `omit` against the real serialiser and parser (harness/props/c05o.py).
+Partial: the default* spellings, importHrefFormat and the assembly of whole sheets are decided by the oracle on
+the implementation: a pairwise-covering array plus random points of the preference space x sheets from G and the
+repository's samples, re-parsed and compared with the model transformed by exactly the documented omissions.
 -/
 import CssVerif.Proofs.Out
 import CssVerif.Proofs.Value
+import CssVerif.Proofs.Omit
 import CssVerif.Props.C17
 namespace CssVerif.C05
 open CssVerif.Out CssVerif.Value
@@ -66,3 +89,162 @@ example : value (append { spacer := [] } (append { spacer := [] } [] (str "a") .
       (str "b") .other true false false false) false = str "a,b" := by decide
 
 end CssVerif.C05
+
+/-! ## which rules and declarations are written -/
+namespace CssVerif.C05
+open CssVerif.Omit
+
+/-- (a) under every preference setting the sheet written is the sheet with items deleted, at every level -/
+theorem written_sub (p : Prefs) (s : Sheet) : RulesSub (written p s) s := wRules_sub p _ true s
+
+/-- (a) ... and, keepEmptyRules being off, the default serialisation with items deleted -/
+theorem written_default_sub (p : Prefs) (s : Sheet) (h : p.keepEmptyRules = false) :
+    RulesSub (written p s) (written {} s) := wRules_default_sub p h _ _ true s
+
+/-- the hypothesis is needed: keepEmptyRules writes `a {}`, which the default serialisation leaves out -/
+example : ¬ RulesSub (written { keepEmptyRules := true } [.style [] []]) (written {} [.style [] []]) := by
+  show ¬ RulesSub [.style [] []] []
+  intro h; cases h
+
+/-- (b) every deletion carries a reason (see `RuleReason`, `ItemReason`, `MarginsDoc`) -/
+theorem omitted_is_documented (p : Prefs) (s : Sheet) : RulesDoc p (usedRules s) true s (written p s) :=
+  wRules_doc p _ true s
+
+/-- (b) an item of a block is left out exactly when a switched-off preference names it -/
+theorem item_omitted_iff (p : Prefs) (pre post : List Item) (x : Item) :
+    kept p pre post x = false ↔ ItemReason p pre post x := kept_false_iff p pre post x
+
+/-- (b) with every keep-preference at its "keep" value nothing is deleted but @page rules, margin boxes and
+@font-face rules without any item (whatever lineSeparator is) -/
+theorem written_keep_everything (p : Prefs) (h1 : p.keepComments = true) (h2 : p.keepEmptyRules = true)
+    (h3 : p.keepUnknownAtRules = true) (h4 : p.keepUsedNamespaceRulesOnly = false) (h5 : p.keepAllProperties = true)
+    (h6 : p.validOnly = false) (s : Sheet) : written p s = pruneRules true s := by
+  unfold written
+  rw [wRules_eq p _ (Or.inl h3), h2, stripRules_keep p _ h5 h1 h3 h6 h4]
+
+theorem written_keep_everything_id (p : Prefs) (h1 : p.keepComments = true) (h2 : p.keepEmptyRules = true)
+    (h3 : p.keepUnknownAtRules = true) (h4 : p.keepUsedNamespaceRulesOnly = false) (h5 : p.keepAllProperties = true)
+    (h6 : p.validOnly = false) (s : Sheet) (hs : hollowFreeRules s = true) : written p s = s := by
+  rw [written_keep_everything p h1 h2 h3 h4 h5 h6, pruneRules_keep s hs]
+
+/-- FINDING: keepEmptyRules does not keep an empty @page, margin box or @font-face -/
+theorem empty_page_is_never_written (p : Prefs) :
+    written p [.page [] []] = [] ∧ written p [.page [] [[]]] = [] ∧ written p [.fontface []] = [] := by
+  refine ⟨?_, ?_, ?_⟩ <;> simp [written, wRules, wRule, wMargins, blockText_nil]
+
+/-- (b) `written` = delete what a preference names, then the rules left without content (style and @media rules
+unless keepEmptyRules; @page, margin box, @font-face always) - when nested at-rules are kept or lineSeparator is empty -/
+theorem written_two_steps (p : Prefs) (hA : NoSepQuirk p) (s : Sheet) :
+    written p s = pruneRules p.keepEmptyRules (stripRules p (usedRules s) true s) := wRules_eq p _ hA true s
+
+/-- the code's notion of a block that is not empty; the second disjunct is the separator quirk -/
+theorem empty_means (p : Prefs) (b : Block) :
+    blockText p b = true ↔ wBlock p b ≠ [] ∨ (p.lineSep = true ∧ 2 ≤ nAt b) := blockText_iff p b
+
+/-- FINDING (the hypothesis of `written_two_steps` is needed): two nested at-rules that are not written leave a
+separator, the rule counts as not empty and is written with an empty block; one does not, nor two when
+lineSeparator is empty -/
+example : written { keepUnknownAtRules := false } [.style [] [.atrule, .atrule]] = [.style [] []] ∧
+    written { keepUnknownAtRules := false } [.style [] [.atrule]] = [] ∧
+    written { keepUnknownAtRules := false, lineSep := false } [.style [] [.atrule, .atrule]] = [] := ⟨rfl, rfl, rfl⟩
+
+/-- (b) single preferences on a block: keepComments removes exactly the comments, -/
+theorem only_comments (b : Block) : wBlock { keepEverything with keepComments := false } b = b.filter (· != .comment) := by
+  unfold wBlock
+  rw [wItems_keepAll _ rfl]
+  congr 1
+  funext x
+  cases x <;> rfl
+
+/-- keepUnknownAtRules exactly the nested at-rules, -/
+theorem only_nested_atrules (b : Block) :
+    wBlock { keepEverything with keepUnknownAtRules := false } b = b.filter (· != .atrule) := by
+  unfold wBlock
+  rw [wItems_keepAll _ rfl]
+  congr 1
+  funext x
+  cases x <;> rfl
+
+/-- validOnly exactly the invalid declarations, -/
+theorem only_invalid (b : Block) :
+    wBlock { keepEverything with validOnly := true } b =
+      b.filter (fun x => match x with | .decl _ _ v => v | _ => true) := by
+  unfold wBlock
+  rw [wItems_keepAll _ rfl]
+  congr 1
+  funext x
+  cases x <;> simp [writes, keepEverything]
+
+/-- keepAllProperties leaves at most one declaration of every name, exactly one when invalid ones are written; which
+one: `effective` (with a priority: none with a priority after it; without: none of the name after it, none with a
+priority before it) - it stays where it stands (`written_sub`) -/
+theorem one_declaration_per_name (p : Prefs) (hk : p.keepAllProperties = false) (n : Nat) (b : Block) :
+    ((wBlock p b).filter (isNamed n)).length ≤ 1 ∧
+    (p.validOnly = false → b.any (isNamed n) = true → (wBlock p b).any (isNamed n) = true) := by
+  refine ⟨at_most_one_per_name p hk n b [], fun hv hb => at_least_one_per_name p hk hv n b [] (Or.inl ⟨rfl, hb⟩)⟩
+
+/-- with validOnly the name may lose all its declarations: the effective one is chosen before validity is asked -/
+example : wBlock { keepAllProperties := false, validOnly := true } [.decl 1 false true, .decl 1 false false] = [] := rfl
+
+/-- (c) writing what was written changes nothing - when (hA) nested at-rules are kept or lineSeparator is empty and
+(hB) unused @namespace rules are kept or every uri used in the sheet is still used in the sheet written -/
+theorem written_idempotent (p : Prefs) (s : Sheet) (hA : NoSepQuirk p)
+    (hB : p.keepUsedNamespaceRulesOnly = false ∨ ∀ u, u ∈ usedRules s → u ∈ usedRules (written p s)) :
+    written p (written p s) = written p s := wRules_stable p _ _ hA hB true s
+
+/-- (hB) holds with keepEmptyRules: every style rule is written -/
+theorem written_idempotent_keepEmpty (p : Prefs) (s : Sheet) (hA : NoSepQuirk p) (hE : p.keepEmptyRules = true) :
+    written p (written p s) = written p s :=
+  written_idempotent p s hA (Or.inr (used_wRules_keepEmpty p _ hE true s))
+
+/-- FINDING, (hB) is needed: `@namespace p "u"; p|a {}` under useMinified is written `@namespace p"u";` - the uri
+is used, by a rule that is not written - and that text is written as the empty sheet -/
+theorem not_idempotent_namespace :
+    written (useMinified {}) [.ns 1 false, .style [1] []] = [.ns 1 false] ∧
+    written (useMinified {}) (written (useMinified {}) [.ns 1 false, .style [1] []]) = [] ∧
+    NoSepQuirk (useMinified {}) := ⟨rfl, rfl, Or.inr rfl⟩
+
+/-- FINDING, (hA) is needed: `a { @x {} @y {} }` with keepUnknownAtRules off is written `a {}`-with-a-blank-line,
+which is not written -/
+theorem not_idempotent_separator :
+    written { keepUnknownAtRules := false } [.style [] [.atrule, .atrule]] = [.style [] []] ∧
+    written { keepUnknownAtRules := false } (written { keepUnknownAtRules := false } [.style [] [.atrule, .atrule]]) = [] :=
+  ⟨rfl, rfl⟩
+
+example : written (useMinified {}) (written (useMinified {}) [.ns 1 false, .style [1] []]) ≠
+    written (useMinified {}) [.ns 1 false, .style [1] []] := ne_of_beqRules_false (by decide)
+
+/-- non-vacuity of the hypotheses: the default preferences and useMinified satisfy (hA), the default ones (hB); a
+sheet with a used and an unused namespace satisfies (hB) under useMinified -/
+example : NoSepQuirk {} ∧ NoSepQuirk (useMinified {}) ∧ ({} : Prefs).keepUsedNamespaceRulesOnly = false :=
+  ⟨Or.inl rfl, Or.inr rfl, rfl⟩
+
+example : ∀ u, u ∈ usedRules [.ns 1 false, .ns 2 false, .media [.style [1] [.decl 1 false true]]] →
+    u ∈ usedRules (written (useMinified {}) [.ns 1 false, .ns 2 false, .media [.style [1] [.decl 1 false true]]]) := by
+  decide
+
+/-- (d) under every preference setting a uri used by a written style rule - at any @media depth - keeps every
+@namespace rule the sheet has for it -/
+theorem used_namespaces_survive (p : Prefs) (s : Sheet) (u : Nat) (d : Bool)
+    (hu : u ∈ usedRules (written p s)) (hn : Rule.ns u d ∈ s) : Rule.ns u d ∈ written p s := by
+  have hin : u ∈ usedRules s := used_wRules p _ true s u hu
+  refine mem_wRules p _ true _ _ ?_ s hn
+  have h0 : nsOmitted p (usedRules s) true u d = false := by
+    simp only [nsOmitted, Bool.and_eq_false_iff, Bool.not_eq_false', List.contains_iff_mem]
+    exact Or.inl (Or.inr hin)
+  simp [wRule, h0]
+
+/-- the converse fails (FINDING): a namespace no WRITTEN style rule uses survives keepUsedNamespaceRulesOnly -/
+theorem unused_namespace_survives :
+    Rule.ns 1 false ∈ written (useMinified {}) [.ns 1 false, .style [1] []] ∧
+    usedRules (written (useMinified {}) [.ns 1 false, .style [1] []]) = [] := by
+  refine ⟨?_, rfl⟩
+  show Rule.ns 1 false ∈ [Rule.ns 1 false]
+  exact List.mem_singleton.mpr rfl
+
+/-- and an unused one goes, a used one (three @media levels down) stays -/
+example : written (useMinified {}) [.ns 1 false, .ns 2 false, .media [.media [.media [.style [2] [.decl 1 false true]]]]] =
+    [.ns 2 false, .media [.media [.media [.style [2] [.decl 1 false true]]]]] := rfl
+
+end CssVerif.C05
+
